@@ -63,7 +63,9 @@ type RetryOpts struct {
 	KeepAliveSec        int    `json:"keepAliveSec,omitempty"` // ConnectOption WithKeepAlive
 	ManualSwitch        string `json:"manualSwitch,omitempty"` // the scripted make-before-break run of manual.go ("handleFirst" | "handleAfter")
 	ManualQoS           int    `json:"manualQoS,omitempty"`
-	StopApps            int    `json:"stopApps,omitempty"` // the SetClient / submit / Disconnect run of manual.go (binding of RetryStop.tla)
+	OnErrorStats        bool   `json:"onErrorStats,omitempty"`   // the OnError callback looks at Stats() (e.g. to log the queue lengths)
+	HandleViaRetry      bool   `json:"handleViaRetry,omitempty"` // Handle is called on the RetryClient that was given to WithRetryClient, not on the reconnecting client
+	StopApps            int    `json:"stopApps,omitempty"`       // the SetClient / submit / Disconnect run of manual.go (binding of RetryStop.tla)
 	StopSkewUs          int    `json:"stopSkewUs,omitempty"`
 	PromptAcks          bool   `json:"promptAcks,omitempty"`     // Write returns only after the client's reader consumed the broker's answer
 	HoldLoopWakeMs      int    `json:"holdLoopWakeMs,omitempty"` // delay the reconnect loop when it wakes up (hook reconnLoopWake): the keep-alive goroutine goes first
@@ -148,6 +150,9 @@ func runRetry(sc *RetryScenario) *RetryResult {
 	rc.OnError = func(err error) {
 		var te *mqtt.RequestTimeoutError
 		rec.Emit(netsim.Event{"e": "OnError", "cls": netsim.ErrClass(err), "timeout": errors.As(err, &te)})
+		if sc.Opts.OnErrorStats {
+			_ = rc.Stats()
+		}
 	}
 	opts := []mqtt.ReconnectOption{
 		mqtt.WithReconnectWait(ms(sc.Opts.ReconnBaseMs, 2), ms(sc.Opts.ReconnMaxMs, 10)),
@@ -407,7 +412,11 @@ func runRetry(sc *RetryScenario) *RetryResult {
 				})
 			}
 			rec.Emit(netsim.Event{"e": "Handle", "h": r.H, "phase": "call"})
-			cli.Handle(mk(r.H, r.Swap))
+			if sc.Opts.HandleViaRetry {
+				rc.Handle(mk(r.H, r.Swap))
+			} else {
+				cli.Handle(mk(r.H, r.Swap))
+			}
 			rec.Emit(netsim.Event{"e": "Handle", "h": r.H, "phase": "ret"})
 		case "release":
 			if g, ok := gates[r.Gate]; ok && !releasedNames[r.Gate] {
@@ -650,7 +659,7 @@ func runRetry(sc *RetryScenario) *RetryResult {
 	cfg := map[string]interface{}{"deliverOnRel": sc.Opts.DeliverOnRel, "alwaysResub": sc.Opts.AlwaysResub,
 		"respTimeout": sc.Opts.RespTimeoutMs > 0, "autoRelease": true, "directQoS0": sc.Opts.DirectQoS0, "mode": "reconn",
 		"reconnBaseUs": ms(sc.Opts.ReconnBaseMs, 2).Microseconds(), "reconnMaxUs": ms(sc.Opts.ReconnMaxMs, 10).Microseconds(),
-		"noReestablish": sc.Opts.NoReestablish || disconnected, "hammer": sc.Opts.Hammer, "maxPayload": sc.Opts.MaxPayload}
+		"noReestablish": sc.Opts.NoReestablish || disconnected, "hammer": sc.Opts.Hammer, "maxPayload": sc.Opts.MaxPayload, "cleanSession": sc.Opts.CleanSession}
 	return &RetryResult{ID: sc.ID, Cfg: cfg, Evs: rec.Snapshot(), Info: info}
 }
 
